@@ -100,6 +100,7 @@ func (ds *dataStore) AppendRecord(rec *Record) (pos Position, err error) {
 
 func (ds *dataStore) flush(chunk int, force bool) error {
 	verifhook.Point("ds.flush.enter", ds.bucketID, chunk, force)
+	defer verifhook.Point("ds.flush.exit", ds.bucketID, chunk, force)
 	if ds.wbufSize == 0 {
 		return nil
 	}
